@@ -156,6 +156,22 @@ def check_bits(case, ctx):
                         "and %r always 1 (bit %d is the most significant)" % (api, words, n, bits0[:8], bits1[:8], ent - 1))
 
 
+def check_unavailable(case, ctx):
+    """Fault: the OS random source raises.  A new wallet must not be produced from any other entropy."""
+    exc = {"NotImplementedError": NotImplementedError("urandom unavailable"), "OSError": OSError(5, "EIO"),
+           "BlockingIOError": BlockingIOError(11, "EAGAIN")}[case["exc"]]
+    state = random.getstate()
+    try:
+        random.seed(case["seed"])
+        with patch.os_random_unavailable(exc):
+            st_, res = call(create, case["api"], case["words"])
+        if st_ == "ok":
+            raise Violation("C08/os-source/unavailable-but-wallet-produced", "%s(%d words) returned %r although every "
+                            "request to the OS random source raised %s" % (case["api"], case["words"], res[0], case["exc"]))
+    finally:
+        random.setstate(state)
+
+
 def clauses():
     return [
         Clause("history", check_history,
@@ -166,6 +182,12 @@ def clauses():
                gen=gen_history, nontrivial=nt_history, key=key_history,
                classes=lambda c: sorted({"%s" % (st_[2],) for st_ in c["steps"] if st_[2]} | {"len>=10" if len(c["steps"]) >= 10 else "len<10"}),
                n={"quick": 300, "thorough": 20000}, shards={"quick": 16, "thorough": 16}),
+        Clause("os-source-unavailable", check_unavailable,
+               "fault injection: os.urandom / getrandom / SystemRandom's source raise NotImplementedError, OSError or "
+               "BlockingIOError during the creation: every api x length must fail instead of falling back to other entropy",
+               enum=lambda tier: [{"api": a_, "words": w_, "exc": e_, "seed": 7} for a_ in APIS for w_ in WORDS
+                                  for e_ in ("NotImplementedError", "OSError", "BlockingIOError")],
+               exhaustive=True, enum_desc="5 apis x 5 lengths x 3 exception kinds", shards={"quick": 8, "thorough": 8}),
         Clause("bit-variation", check_bits,
                "for each api x length: 96 (quick) / 192 (thorough) fresh wallets; every one of the ENT bit positions, "
                "explicitly including bit ENT-1, must be seen as 0 and as 1; no two wallets coincide",
